@@ -296,10 +296,12 @@ package oidc
 //@   #allocates
 //@   ensures  keys: err == nil ==> set != nil && KeysFrom(cfg, set)
 
-// A-TIME: the clock is non-decreasing; Clk is the last instant it returned
+// the clock of the service is the wall clock (A-TIME is stated on time.Now); the NowFn override is a test
+// hook: that no production Clock sets it is assumed here, not checked at the call sites
 //@ func (*Clock).Now
-//@   abstractbody
 //@   lockfree
+//@   requires recv: s != nil
+//@   assumes  no_override: s.NowFn == nil
 //@   modifies ghost Clk
 //@   ensures  mono: result >= old(Clk) && Clk == result && result > TZERO + SECOND && result <= ROpEnd
 
